@@ -810,6 +810,7 @@ func TestC22(t *testing.T) {
 		{rc.OpLP24, []int{65535, 65536}},
 		{rc.OpLP32, []int{65535, 65536}},
 	}
+	lims = append(lims, lim{rc.OpASN1, []int{1<<24 - 1, 1 << 24, 1<<24 + 1}})
 	if ev.Thorough() {
 		lims = append(lims,
 			lim{rc.OpLP24, []int{1<<24 - 2, 1<<24 - 1, 1 << 24, 1<<24 + 1}},
